@@ -44,22 +44,27 @@ def stepName : Step → String
   | .prevote => "prevote" | .prevoteWait => "prevoteWait" | .precommit => "precommit"
   | .precommitWait => "precommitWait" | .commit => "commit"
 
-def parseMsg (toks : List String) : Option Msg :=
+/-- a message a faulty validator may send; the same range checks as the Go side (`n` validators,
+block ids `< ids`, of which the last has no block) -/
+def parseMsg (n ids : Nat) (toks : List String) : Option Msg :=
   match toks with
   | "prop" :: rest => do
     let r ← (← kv rest "r").toNat?
     let b ← (← kv rest "b").toNat?
     let pol ← (← kv rest "pol").toInt?
     let by_ ← (← kv rest "by").toNat?
+    if r > 1000 ∨ b ≥ ids ∨ by_ ≥ n ∨ pol < -1000 ∨ pol > 1000 then none else
     pure (.proposal { round := r, bid := b, pol := pol, signer := by_ })
   | "block" :: rest => do
     let b ← (← kv rest "b").toNat?
+    if b + 2 > ids then none else
     pure (.block b)
   | "vote" :: rest => do
     let t ← parseVType (← kv rest "t")
     let r ← (← kv rest "r").toNat?
     let b ← parseBid (← kv rest "b")
     let v ← (← kv rest "v").toNat?
+    if r > 1000 ∨ v ≥ n ∨ (b.getD 0) ≥ ids then none else
     pure (.vote ⟨t, r, b, v, true⟩)
   | _ => none
 
@@ -137,7 +142,7 @@ def step (st : St) (toks : List String) : St × String :=
   | "cfg" :: rest =>
     match parseCfg rest with
     | some (c, ids, correct) => ({ cfg := some c, ids := ids, net := Net.init correct }, "ok")
-    | none => (st, "bad-op")
+    | none => ({ st with cfg := none }, "bad-op")   -- the Go side drops its nodes as well
   | _ =>
     match st.cfg with
     | none => (st, "bad-op")
@@ -152,7 +157,7 @@ def step (st : St) (toks : List String) : St × String :=
           ({ st with net := net' }, nodeAnswer c st.ids net net' i)
         | _, _ => (st, "bad-op")
       | "byz" :: rest =>
-        match parseMsg rest with
+        match parseMsg c.cfg.n st.ids rest with
         | some m =>
           match net.byz m with
           | some net' => ({ st with net := net' }, s!"log={net'.log.findIdx (· = m)}")
@@ -168,6 +173,7 @@ def step (st : St) (toks : List String) : St × String :=
         match posOf net rest "node", (kv rest "peer").bind String.toNat?,
               (kv rest "t").bind parseVType, (kv rest "r").bind String.toNat?, (kv rest "b").bind parseBid with
         | some i, some peer, some t, some r, some b =>
+          if r > 1000 then (st, "bad-op") else
           if peer = 0 ∨ peer > c.cfg.n ∨ net.nodes.any (fun nd => nd.idx + 1 = peer) then (st, "refused") else
           let net' := net.input c i (.peerMaj23 r t peer b)
           ({ st with net := net' }, nodeAnswer c st.ids net net' i)
